@@ -16,7 +16,9 @@ CHECKS = {
              "after every call (each behaviour under two order-preserving embeddings of the time lattice: small floats, and "
              "quotient 2^50+q with remainders 2^-45 apart), and long seeded histories executed on the real schedulers (crossing the 64/128 "
              "reallocations and the counter wrap-around) are validated line by line by TLC and re-run through heap.c "
-             "under ASan+UBSan.",
+             "under ASan+UBSan; the TLC behaviours are also run through heap.c built with the model's initial allocation (3) "
+             "under ASan+UBSan. Representation-level differences (array layout, tie-break) are reported as transcription "
+             "drift notes, property-level ones (error kind, live minimal time of the returned handler) as violations.",
         design="5/C06",
         note="Trusted: TLC, the harness replay/recorder code, cffi. Bounded: model constants (2-3 handlers, sizes "
              "3/6/12, MaxCounter 1-2); histories are seeded samples, not all histories."),
@@ -47,7 +49,8 @@ CHECKS = {
              "real factory builds from each .ini; a candidate computed from an outdated trajectory or active cell that survives "
              "the trash step is a counterexample. Code: in recorded runs every commit of an interaction / cell-veto handler "
              "must carry the motion versions of its in-state units as they were when its candidate was computed, and no stale "
-             "candidate may remain after any trash step.",
+             "candidate may remain after any trash step; two generated runs start every handler's lazy-deletion counter just "
+             "below 2^32 so that the heap scheduler's counter wrap-around happens inside the recorded legs.",
         design="5/C08",
         note="Design model abstracts times and positions (any pending candidate may fire); quick tier bounds the largest "
              "configuration's exploration. Runs are seeded samples."),
@@ -117,20 +120,26 @@ CHECKS = {
              "scheduler entry comes back, commits stay fresh, sampling stays on nominal times). Heap.tla covers the scheduler's "
              "pickled contents including trashed entries' validity.",
         design="5/C19",
-        note="Seeded runs; dump points are the dumping events of those runs (3-8 per plan); quick: 4 plans, thorough: 9."),
+        note="Seeded runs; dump points are the dumping events of those runs (3-8 per plan); quick: 6 plans, thorough: 13. One "
+             "plan has commensurate intervals (bit-identical candidate times in the scheduler at the dump points); on it only "
+             "resumed-vs-uninterrupted is compared, since the order of equal times is left open by the schedulers."),
     "C20": dict(
         technique="TLA+ model checking (TLC) of MultiProc.tla (safety + liveness); controlled-schedule runs of the real multi-process mediator: "
-                  "step-level validation of the mediator's stage machine (TraceMedStage.tla) and equality with the single-process run (Lockstep.tla)",
+                  "step-level validation of the mediator's stage machine (TraceMedStage.tla) and of every worker's synchronisation operations "
+                  "(TraceWorker.tla), equality with the single-process run (Lockstep.tla)",
         text="MultiProc.tla transcribes MultiProcessMediator.run, run_in_process and the or-event; TLC explores every "
              "interleaving for 3 handlers, 2-4 cores and 2-3 legs and checks that no MediatorError/assert site is reachable, "
              "that a committed out-state (including pre-computed ones) was computed from the current in-state, that pipes are "
              "clean when a handler is started, the semaphore bound, deadlock freedom and completion under weak fairness. Real "
              "runs with per-handler random streams are executed under sampled schedules (a shim around connection.wait that "
-             "reorders/subsets ready pipes, per-worker answer delays, 2-16 cores) and must equal the single-process run record "
-             "by record on float keys; a hang, an exception or a leftover worker process is a violation.",
+             "reorders/subsets ready pipes, per-worker answer delays and pauses after semaphore.release, 2-16 cores) and must equal "
+             "the single-process run record by record on float keys; a hang, an exception or a leftover worker process is a "
+             "violation. Every worker logs its wait/clear/acquire/recv/send/release operations in program order and the log must "
+             "be a path through the program counter of MultiProc!W(h).",
         design="5/C20",
-        note="The model is bound to the code by outcome (equality, termination, no leftover process) under sampled schedules, "
-             "not by step-wise validation of worker traces. Configurations whose out-state computation draws no random numbers."),
+        note="Schedules are sampled (plus every script over the first choice points), not all interleavings; the step-wise "
+             "validation of mediator stages and worker operations is schedule independent. Configurations whose out-state "
+             "computation draws no random numbers."),
     "C05": dict(
         technique="TLA+ model checking (TLC) of Lifting.tla + trace validation (TraceLifting.tla) of what the real lifting classes and "
                   "the real composite-object event handler select over every unit piece of the draw range",
@@ -149,7 +158,9 @@ CHECKS = {
                   "of boundary doubles on order-preserving float keys (TraceTime.tla, F64.tla)",
         text="Time.tla defines add/sub/from_float/comparisons in exact fixed point; TLC checks normalisation, exactness, monotony, "
              "rational order and infinity clauses for all lattice values and the run clock as a state machine (incl. Update/Reassign of a long-lived object). All model "
-             "evaluations are replayed into the real Time with quotient offsets 0, 2^31, 2^52-16 (exact equality). Boundary and "
+             "evaluations are replayed into the real Time with quotient offsets 0, 2^31, 2^52-16 (exact equality), and sets of "
+             "lattice times at the same offsets are pushed into the real HeapScheduler (heap.c) and ListScheduler: nothing live may "
+             "be smaller, by the model's comparison table, than what they return. Boundary and "
              "random doubles are evaluated on the real class, logged as 64-bit order keys and measured residuals, and judged "
              "clause by clause by TLC.",
         design="5/C14",
@@ -179,7 +190,7 @@ CHECKS = {
         text="Walker.tla transcribes the alias-table construction (LIFO pops) on integer rates; TLC checks row mass, per-cell "
              "probability = rate/total, zero-rate cells, and the construction as a state machine. For every vector the real "
              "Walker is driven through every table row and every interior second draw (three magnitudes); per-cell mass, "
-             "total_rate and zero-rate selections must equal the model's.",
+             "total_rate (read at construction and again after sampling) and zero-rate selections must equal the model's.",
         design="5/C18",
         note="Alias table part exhaustive for vectors of length <= 4/5 over 0..3; the cell-veto handler part (offset mapping, "
              "stored bound) is judged on recorded runs. Known finding: zero-rate cell selected when the draw is exactly 0.0."),
